@@ -42,12 +42,12 @@ MIN_EVALUATIONS = {"quick": 60, "thorough": 1500}
 
 
 def plan(tier, seed):
-    n = 6 if tier == "quick" else 100
+    n = 25 if tier == "quick" else 150
     shards = [dict(seed=seed, shard=i, n=n, mode="inproc")
               for i in range(12)]
     shards.append(dict(seed=seed, shard=50, mode="window"))
     shards += [dict(seed=seed, shard=60 + i, mode="xproc",
-                    rounds=2 if tier == "quick" else 12) for i in range(3)]
+                    rounds=8 if tier == "quick" else 40) for i in range(3)]
     return shards
 
 
